@@ -130,6 +130,20 @@ def r2_closure(ctx):
                 r = calllog.payload(pop_t)
                 ders = it.named('class_derivative_unchecked')
                 pushes = it.named('BfsQueue::<T>::push')
+                if not ders and len(pushes) == 1:
+                    # the derivatives were collected first: what is pushed is the k-th element of
+                    #   [ class_derivative_unchecked(r, cid) for cid in r.class_ids() ]   (closed form of the collected vector)
+                    pv = pushes[0][1][1]
+                    maps = [t_ for t_ in T.subterms(pv) if t_[0] == 'map' and len(t_) == 4]
+                    ok = False
+                    for m_ in maps:
+                        dom_, k_, body_ = m_[1], m_[2], m_[3]
+                        ok = ok or (pv[0] == 'elem' and any(c_ == pv[2] for c_, _ in counters(ip, it)) and body_[0] == 'call' and body_[1].endswith('class_derivative_unchecked') and
+                                    body_[2][1] == r and body_[2][2] == ('elem', dom_, k_) and 'class_ids' in T.show(dom_) and T.show(r) in T.show(dom_))
+                    ctx.obligation(ok)
+                    (ctx.ok if ok else ctx.violation)('C19.R2', 'C19.R2/DerivativeIterator::next/pushes-derivative-of-popped-term-for-each-class', fn.path, fn.site(),
+                                                      {'calls': [T.show(calllog.call_term(c))[:300] for c in it.calls]}, cfg)
+                    continue
                 ok = len(ders) == 1 and len(pushes) == 1 and ders[0][1][1] == r and pushes[0][1][1] == calllog.call_term(ders[0])
                 if ok:
                     cid = ders[0][1][2]
